@@ -1,0 +1,9 @@
+//go:build verif
+
+package decoder
+
+// VerifCutFieldsBySize exposes (*jsonDecoder).cutFieldsBySize (the json_max_fields_size cutting)
+// to the verification harness (property C12). d must come from NewJsonDecoder.
+func VerifCutFieldsBySize(d Decoder, data []byte) []byte {
+	return d.(*jsonDecoder).cutFieldsBySize(data)
+}
